@@ -1,4 +1,4 @@
 From Coq Require Import Extraction ExtrOcamlBasic.
 From Elk Require Import Base.GoSem Model.C06_Int Model.C08_Paths.
 Extraction Language OCaml.
-Separate Extraction generic typed_int typed_float by_name fold has_float_opcode Z.add Z.opp Z.compare.
+Separate Extraction generic typed_int typed_float by_name fold has_float_opcode x_ints Z.add Z.opp Z.compare.
